@@ -31,6 +31,17 @@ const tRigFullName = "github.com/usnistgov/dastard"
 // newTRig builds the source. restored != nil plays the role of the trigger settings saved
 // by the previous run (what PrepareRun reads back from the configuration).
 func newTRig(nchan, npre, nsamp int, total int, restored []FullTriggerState, symFrame0 bool) *tRig {
+	rig := newTRigBase(nchan, npre, nsamp, restored)
+	rig.initStream(total, symFrame0)
+	return rig
+}
+
+// shareStream makes rig replay the very same (symbolic) stream as other.
+func (rig *tRig) shareStream(other *tRig) {
+	rig.frame0, rig.t0, rig.period, rig.truth, rig.signed = other.frame0, other.t0, other.period, other.truth, other.signed
+}
+
+func newTRigBase(nchan, npre, nsamp int, restored []FullTriggerState) *tRig {
 	rig := &tRig{nchan: nchan, npre: npre, nsamp: nsamp}
 	rig.pub = make(chan []*DataRecord, 256)
 	rig.sum = make(chan []*DataRecord, 256)
@@ -57,6 +68,11 @@ func newTRig(nchan, npre, nsamp int, total int, restored []FullTriggerState, sym
 	ds.writingState.dataDropTicker = &time.Ticker{C: make(chan time.Time)}
 	rig.ds = ds
 	rig.period = 100000 // 10 kHz
+	return rig
+}
+
+func (rig *tRig) initStream(total int, symFrame0 bool) {
+	nchan := rig.nchan
 	if symFrame0 {
 		rig.frame0 = FrameIndex(vSymI64("frame0"))
 		vAssume(rig.frame0 >= 1000 && rig.frame0 < 1<<40) // frame 0 is the code's "no trigger yet" marker; runs starting near frame 0 are a separate concrete case
@@ -73,7 +89,6 @@ func newTRig(nchan, npre, nsamp int, total int, restored []FullTriggerState, sym
 			rig.truth[c][k] = RawType(vSymU16("s" + string(rune('0'+c)) + "_" + string(rune('a'+k/26)) + string(rune('a'+k%26))))
 		}
 	}
-	return rig
 }
 
 // feed delivers the next n samples of every channel as one block through ProcessSegments
